@@ -79,32 +79,46 @@ Section Greedy.
   (** excluded options have no occurrence in the current run *)
   Definition ExInv (ex : list nat) (a : list str) : Prop := forall p, In p ex -> scan D p [] a = None.
 
+  (** under the invariant, the first pass of options.try is the first successful scan *)
+  Lemma try_consume_first_scan opts : forall ex a, ExInv ex a ->
+    try_consume D opts ex a = match first_scan opts a with Some (o, v, r) => Some (r, [(KO o, v)]) | None => None end.
+  Proof.
+    induction opts as [|o opts IH]; intros ex a Hinv; cbn [try_consume first_scan]; [reflexivity|].
+    destruct (mem_nat o ex) eqn:Hm.
+    - apply mem_nat_In in Hm. rewrite (Hinv o Hm). now apply IH.
+    - rewrite m_opt_scan. destruct (scan D o [] a) as [[v rem]|] eqn:Es; [reflexivity|].
+      destruct (oi_fromenv D o); now apply IH.
+  Qed.
+
+  Lemma try_env_cases opts : forall ex a p, try_env D opts ex a = Some p ->
+    In p opts /\ oi_fromenv D p = true /\ scan D p [] a = None.
+  Proof.
+    induction opts as [|o opts IH]; intros ex a p; cbn [try_env]; [discriminate|].
+    destruct (mem_nat o ex).
+    - intros H. destruct (IH _ _ _ H) as (I & X). split; [now right | exact X].
+    - rewrite m_opt_scan. destruct (scan D o [] a) as [[v rem]|] eqn:Es.
+      + intros H. destruct (IH _ _ _ H) as (I & X). split; [now right | exact X].
+      + destruct (oi_fromenv D o) eqn:He.
+        * intros [= <-]. repeat split; auto. now left.
+        * intros H. destruct (IH _ _ _ H) as (I & X). split; [now right | exact X].
+  Qed.
+
   Lemma try_opts_cases opts : forall ex a r bs ex1, ExInv ex a ->
     try_opts D opts ex a = Some (r, bs, ex1) ->
     (r = a /\ bs = [] /\ exists p, ex1 = p :: ex /\ scan D p [] a = None /\ (In p opts /\ oi_fromenv D p = true)) \/
     (exists o v, first_scan opts a = Some (o, v, r) /\ bs = [(KO o, v)] /\ ex1 = ex).
   Proof.
-    induction opts as [|o opts IH]; intros ex a r bs ex1 Hinv; cbn [try_opts first_scan]; [discriminate|].
-    destruct (mem_nat o ex) eqn:Hm.
-    - apply mem_nat_In in Hm. rewrite (Hinv o Hm). intros H.
-      destruct (IH _ _ _ _ _ Hinv H) as [(E1 & E2 & p & E3 & E4 & E5 & E6)|X]; [|now right].
-      left. repeat split; auto. exists p. repeat split; auto. now right.
-    - rewrite m_opt_scan. destruct (scan D o [] a) as [[v rem]|] eqn:Es.
-      + intros [= <- <- <-]. right. exists o, v. auto.
-      + destruct (oi_fromenv D o) eqn:He.
-        * intros [= <- <- <-]. left. repeat split; auto. exists o. repeat split; auto. now left.
-        * intros H. destruct (IH _ _ _ _ _ Hinv H) as [(E1 & E2 & p & E3 & E4 & E5 & E6)|(o' & v' & E1 & E2 & E3)].
-          -- left. repeat split; auto. exists p. repeat split; auto. now right.
-          -- right. exists o', v'. auto.
+    intros ex a r bs ex1 Hinv. unfold try_opts. rewrite (try_consume_first_scan opts ex a Hinv).
+    destruct (first_scan opts a) as [[[o v] r0]|] eqn:Ef.
+    - intros [= <- <- <-]. right. exists o, v. auto.
+    - destruct (try_env D opts ex a) as [p|] eqn:Ee; [|discriminate]. intros [= <- <- <-].
+      destruct (try_env_cases _ _ _ _ Ee) as (I & He & Hs). left. repeat split; auto. exists p. auto.
   Qed.
 
   Lemma try_opts_none opts : forall ex a, ExInv ex a -> try_opts D opts ex a = None -> first_scan opts a = None.
   Proof.
-    induction opts as [|o opts IH]; intros ex a Hinv; cbn [try_opts first_scan]; [reflexivity|].
-    destruct (mem_nat o ex) eqn:Hm.
-    - apply mem_nat_In in Hm. rewrite (Hinv o Hm). now apply IH.
-    - rewrite m_opt_scan. destruct (scan D o [] a) as [[v rem]|]; [discriminate|].
-      destruct (oi_fromenv D o); [discriminate | now apply IH].
+    intros ex a Hinv. unfold try_opts. rewrite (try_consume_first_scan opts ex a Hinv).
+    destruct (first_scan opts a) as [[[o v] r0]|]; [discriminate | reflexivity].
   Qed.
 
   Lemma first_scan_nil opts : first_scan opts [] = None.
@@ -170,12 +184,23 @@ Section Greedy.
   Lemma try_opts_some opts : forall ex a o,
     In o opts -> mem_nat o ex = false -> (scan D o [] a <> None \/ oi_fromenv D o = true) -> try_opts D opts ex a <> None.
   Proof.
-    induction opts as [|p opts IH]; intros ex a o Hin Hm Ho; [destruct Hin|]. cbn [try_opts].
-    destruct (mem_nat p ex) eqn:Hp.
-    - destruct Hin as [->|Hin]; [congruence | now apply (IH ex a o)].
-    - rewrite m_opt_scan. destruct (scan D p [] a) as [[v rem]|] eqn:Es; [discriminate|].
-      destruct (oi_fromenv D p) eqn:He; [discriminate|].
-      destruct Hin as [->|Hin]; [destruct Ho; congruence | now apply (IH ex a o)].
+    intros ex a o Hin Hm Ho. unfold try_opts.
+    destruct (try_consume D opts ex a) as [[r b]|] eqn:Ec; [discriminate|].
+    assert (Hnone : forall p, In p opts -> mem_nat p ex = false -> scan D p [] a = None).
+    { clear -Ec. induction opts as [|q opts IH]; intros p Hin Hp; [destruct Hin|].
+      destruct Hin as [->|Hin]; cbn [try_consume] in Ec.
+      - rewrite Hp, m_opt_scan in Ec. destruct (scan D p [] a) as [[v rem]|]; [discriminate | reflexivity].
+      - apply IH; auto. destruct (mem_nat q ex); [exact Ec|]. rewrite m_opt_scan in Ec.
+        destruct (scan D q [] a) as [[v rem]|]; [discriminate|]. destruct (oi_fromenv D q); exact Ec. }
+    destruct Ho as [Ho|Ho]; [exfalso; apply Ho; now apply Hnone|].
+    assert (He : try_env D opts ex a <> None).
+    { clear Ec. induction opts as [|q opts IH]; [destruct Hin|]. cbn [try_env].
+      destruct (mem_nat q ex) eqn:Hq.
+      - destruct Hin as [->|Hin]; [congruence|]. apply IH; auto. intros p Hp. apply Hnone. now right.
+      - rewrite m_opt_scan. rewrite (Hnone q (or_introl eq_refl) Hq).
+        destruct (oi_fromenv D q) eqn:Eq; [discriminate|].
+        destruct Hin as [->|Hin]; [congruence|]. apply IH; auto. intros p Hp. apply Hnone. now right. }
+    destruct (try_env D opts ex a); [discriminate | congruence].
   Qed.
 
   Theorem m_group_succeeds opts a o : a <> [] -> In o opts ->
@@ -280,13 +305,36 @@ Section Mono.
     destruct (scan D o [] (t :: rest)) as [[v rem]|]; [auto | exact Hfb].
   Qed.
 
+  Lemma try_consume_mono opts : forall ex a, try_consume D' opts ex a = try_consume D opts ex a.
+  Proof.
+    induction opts as [|o opts IH]; intros ex a; cbn [try_consume]; [reflexivity|].
+    destruct (mem_nat o ex); [apply IH|]. unfold m_opt. rewrite (scan_ext D D' Hsame).
+    destruct a as [|t rest].
+    - destruct (oi_fromenv D o), (oi_fromenv D' o); apply IH.
+    - destruct (scan D o [] (t :: rest)) as [[v rem]|]; [reflexivity|].
+      destruct (oi_fromenv D o), (oi_fromenv D' o); apply IH.
+  Qed.
+
+  Lemma try_env_some_mono opts : forall ex a, try_env D opts ex a <> None -> try_env D' opts ex a <> None.
+  Proof.
+    pose proof (proj2 Hmore) as He.
+    induction opts as [|o opts IH]; intros ex a; cbn [try_env]; [auto|].
+    destruct (mem_nat o ex); [apply IH|]. unfold m_opt. rewrite (scan_ext D D' Hsame).
+    destruct a as [|t rest].
+    - destruct (oi_fromenv D o) eqn:E1, (oi_fromenv D' o) eqn:E2; cbn; intros H; try discriminate; try (now apply IH).
+      rewrite (He o E1) in E2. discriminate.
+    - destruct (scan D o [] (t :: rest)) as [[v rem]|]; [apply IH|].
+      destruct (oi_fromenv D o) eqn:E1, (oi_fromenv D' o) eqn:E2; cbn; intros H; try discriminate; try (now apply IH).
+      rewrite (He o E1) in E2. discriminate.
+  Qed.
+
   Lemma try_opts_some_mono opts : forall ex a, try_opts D opts ex a <> None -> try_opts D' opts ex a <> None.
   Proof.
-    induction opts as [|o opts IH]; intros ex a; cbn [try_opts]; [auto|].
-    destruct (mem_nat o ex); [apply IH|].
-    destruct (m_opt D o a false) as [[[m r] b]|] eqn:E.
-    - rewrite (m_opt_mono _ _ _ _ E). discriminate.
-    - intros H. destruct (m_opt D' o a false) as [[[m r] b]|]; [discriminate | now apply IH].
+    intros ex a. unfold try_opts. rewrite try_consume_mono.
+    destruct (try_consume D opts ex a) as [[r b]|]; [discriminate|].
+    intros H. assert (He : try_env D' opts ex a <> None).
+    { apply try_env_some_mono. destruct (try_env D opts ex a); [discriminate | congruence]. }
+    destruct (try_env D' opts ex a); [discriminate | congruence].
   Qed.
 
   (** the group matcher: whatever it does without the extra environment values it does with them *)
@@ -319,3 +367,76 @@ Section Mono.
       + now apply m_group_mono with u.
   Qed.
 End Mono.
+
+(** * The group matcher is monotone in the environment on EVERY command line (D8)
+    Since options.try prefers an option that finds an occurrence of itself to one satisfied by its environment
+    value, the group consumes the same occurrences, in the same order, whatever the environment backs: the
+    environment only adds steps that consume nothing. No hypothesis on the command line. *)
+Section ExhaustedLoop.
+  Variable D : optinfo.
+
+  Lemma try_consume_ex_none opts : forall ex a, try_consume D opts [] a = None -> try_consume D opts ex a = None.
+  Proof.
+    induction opts as [|o opts IH]; intros ex a; cbn [try_consume mem_nat]; [reflexivity|].
+    destruct (m_opt D o a false) as [[[m ro] [|b bs]]|]; destruct (mem_nat o ex); try discriminate; apply IH.
+  Qed.
+
+  (** once no listed option finds an occurrence of itself, the loop only excludes options: it returns the
+      arguments and the bindings it was entered with *)
+  Lemma exhausted_loop opts f : forall ex a acc r,
+    try_consume D opts [] a = None -> group_loop D f opts ex a acc = Some r -> r = (a, acc).
+  Proof.
+    induction f as [|f IH]; intros ex a acc r Hx; cbn [group_loop]; [discriminate|].
+    unfold try_. destruct a as [|t rest]; [now intros [= <-]|].
+    unfold try_opts. rewrite (try_consume_ex_none opts ex _ Hx).
+    destruct (try_env D opts ex (t :: rest)) as [o|]; [|now intros [= <-]].
+    rewrite app_nil_r. now apply IH.
+  Qed.
+End ExhaustedLoop.
+
+Section MonoAll.
+  Variables D D' : optinfo.
+  Hypothesis Hmore : more_env D D'.
+
+  Lemma consume_loop_mono opts f : forall a acc r,
+    group_loop D f opts [] a acc = Some r -> forall f' r', group_loop D' f' opts [] a acc = Some r' -> r' = r.
+  Proof.
+    induction f as [|f IH]; intros a acc r; [discriminate|]. intros H [|f'] r' H'; [discriminate|].
+    destruct (try_consume D opts [] a) as [[rem bs]|] eqn:Ec.
+    - cbn [group_loop] in H, H'. unfold try_ in H, H'. destruct a as [|t rest]; [congruence|].
+      unfold try_opts in H, H'. rewrite (try_consume_mono D D' Hmore) in H'. rewrite Ec in H, H'.
+      exact (IH _ _ _ H f' r' H').
+    - rewrite (exhausted_loop D opts _ _ _ _ _ Ec H).
+      assert (Ec' : try_consume D' opts [] a = None) by (now rewrite (try_consume_mono D D' Hmore)).
+      exact (exhausted_loop D' opts _ _ _ _ _ Ec' H').
+  Qed.
+
+  Theorem m_group_mono_all opts a r : m_group D opts a false = Some r -> m_group D' opts a false = Some r.
+  Proof.
+    unfold m_group. pose proof (m_group_never_out_of_fuel D' opts a) as N.
+    unfold try_ in *. destruct a as [|t rest]; [discriminate|].
+    destruct (try_opts D opts [] (t :: rest)) as [[[rem0 bs0] ex0]|] eqn:Et; [|discriminate].
+    assert (T : try_opts D' opts [] (t :: rest) <> None) by (apply (try_opts_some_mono D D' Hmore); congruence).
+    destruct (try_opts D' opts [] (t :: rest)) as [[[rem1 bs1] ex1]|] eqn:Et'; [|congruence].
+    destruct (group_loop D (group_fuel opts (t :: rest)) opts ex0 rem0 bs0) as [[m b]|] eqn:Eg; [|discriminate].
+    destruct (group_loop D' (group_fuel opts (t :: rest)) opts ex1 rem1 bs1) as [[m' b']|] eqn:Eg'; [|congruence].
+    intros [= <-]. unfold try_opts in Et, Et'. rewrite (try_consume_mono D D' Hmore) in Et'.
+    destruct (try_consume D opts [] (t :: rest)) as [[rem bs]|] eqn:Ec.
+    - injection Et as <- <- <-. injection Et' as <- <- <-.
+      pose proof (consume_loop_mono opts _ _ _ _ Eg _ _ Eg') as E. injection E as -> ->. reflexivity.
+    - destruct (try_env D opts [] (t :: rest)) as [o|]; [|discriminate]. injection Et as <- <- <-.
+      destruct (try_env D' opts [] (t :: rest)) as [o'|]; [|discriminate]. injection Et' as <- <- <-.
+      pose proof (exhausted_loop D opts _ _ _ _ _ Ec Eg) as E1. injection E1 as -> ->.
+      assert (Ec' : try_consume D' opts [] (t :: rest) = None) by (now rewrite (try_consume_mono D D' Hmore)).
+      pose proof (exhausted_loop D' opts _ _ _ _ _ Ec' Eg') as E2. injection E2 as -> ->. reflexivity.
+  Qed.
+
+  (** every matcher step possible without the extra environment values is possible with them, whatever the
+      command line looks like *)
+  Lemma step_mono_all l a ro r : run_matcher D l a ro = Some r -> run_matcher D' l a ro = Some r.
+  Proof.
+    destruct l as [|i|o|js|]; cbn [run_matcher]; auto.
+    - apply (m_opt_mono D D' Hmore).
+    - destruct ro; [unfold m_group, try_; destruct a; discriminate | apply m_group_mono_all].
+  Qed.
+End MonoAll.
